@@ -371,6 +371,128 @@ Example c07_ssp_run_half_sharp :
   In (I32, 2147483648) (ssp_run_vals tree_fuel over_run_pb) /\ ~ fits (I32, 2147483648).
 Proof. exact ssp_run_half_sharp. Qed.
 
+(* ================================================================== the float side of the transportation costs
+   (CostsFloat.v / CostsFloatProofs.v; Flocq binary32 / binary64, round to nearest even, one C++ operator = one rounding).
+   These theorems use the real numbers of the standard library: Print Assumptions lists
+   ClassicalDedekindReals.sig_forall_dec, ClassicalDedekindReals.sig_not_dec,
+   FunctionalExtensionality.functional_extensionality_dep and (through Flocq) Classical_Prop.classic. *)
+From Coq Require Import Reals.
+From Flocq Require Import Core BinarySingleNaN.
+Require Import CV.SspProofs CV.SpreadFloat CV.ExpandFloat CV.CostsFloat CV.CostsFloatProofs.
+Local Open Scope Z_scope.
+
+(* [F] std::round of a finite double, as modelled (SpreadFloat.dround_Z, also used by C06): the nearest integer of the
+   real value, halves away from zero *)
+Theorem c07_costs_round_is_nearest_away : forall v : f64,
+  is_finite v = true -> dround_Z v = Some (ZnearestA (B2R v)).
+Proof. exact dround_Z_correct. Qed.
+
+(* [F] costsFromIntegers (transportation.cpp:153-174) on EVERY rectangular matrix of finite non-negative binary32 costs with
+   1 <= #sinks < 2^30: every std::round result converts to int (no undefined conversion), the shape is kept, and every entry
+   k satisfies 0 <= k and 4 n k <= INT_MAX + 2 n *)
+Theorem c07_costs_from_floats_defined : forall (fc : list (list f32)) (nr : nat),
+  fcosts_ok fc -> rect_mat nr fc -> 1 <= Z.of_nat (length fc) < 2 ^ 30 ->
+  exists c, costs_from_floats fc = Some c /\ length c = length fc /\ rect_mat nr c /\
+            Forall (Forall (scaled_ok (Z.of_nat (length fc)))) c.
+Proof. exact costs_from_floats_spec. Qed.
+
+(* [F] the float constructor: the problem is built, check() accepts it, and it is in cost_dom -- the hypothesis that
+   c07_ssp_run_no_overflow_scaled assumed *)
+Theorem c07_float_problem_cost_dom : forall (cps dms : list Z) (fc : list (list f32)),
+  fcosts_ok fc -> length fc = length cps -> rect_mat (length dms) fc ->
+  1 <= Z.of_nat (length cps) < 2 ^ 30 ->
+  Forall (fun c => 0 < c) cps -> Forall (fun d => 0 < d) dms ->
+  exists pb, float_problem cps dms fc = Some pb /\ caps pb = cps /\ dems pb = dms /\
+             check_pb pb = true /\ cost_dom pb.
+Proof. exact float_problem_cost_dom. Qed.
+
+(* [F] composition (constructor; increaseCapacity(); solve(), the sequence of DensityLegalizer::reoptimize): for EVERY float
+   problem of the domain every listed int / long long intermediate of increaseCapacity and of the whole
+   successive-shortest-path run fits its type, and the run returns an optimal plan for the scaled integer costs *)
+Theorem c07_float_transport_problem_no_overflow : forall (cps dms : list Z) (fc : list (list f32)),
+  fcosts_ok fc -> length fc = length cps -> rect_mat (length dms) fc ->
+  1 <= Z.of_nat (length cps) < 2 ^ 30 ->
+  Forall (fun c => 0 < c) cps -> Forall (fun d => 0 < d) dms ->
+  zsuml dms <= SUMB -> zsuml cps <= SUMB ->
+  exists pb, float_problem cps dms fc = Some pb /\ caps pb = cps /\ dems pb = dms /\
+             check_pb pb = true /\ cost_dom pb /\
+             Forall fits (increase_capacity_vals pb) /\
+             let pb' := increase_capacity pb in
+             Forall fits (ssp_run_vals tree_fuel pb') /\
+             exists x, ssp pb' = Ok x /\ pb_optimal pb' (plan_f x).
+Proof. exact float_transport_problem_no_overflow. Qed.
+(* non-vacuity: a 2 x 3 matrix with a zero, equal entries, the smallest denormal and entries of size 1e30 *)
+Example c07_costs_nonvacuous :
+  fcosts_ok ex_fcosts /\ rect_mat 3 ex_fcosts /\
+  costs_from_floats ex_fcosts = Some [[0; 268435456; 0]; [268435456; 134217728; 0]].
+Proof. split; [exact ex_fcosts_ok|split; [repeat constructor|exact ex_fcosts_value]]. Qed.
+
+(* [R] outside the domain.  A NaN entry: std::max lets it through and forgets it at the next entry; its product is NaN and
+   the conversion of std::round(NaN) to int is undefined (model: None) *)
+Theorem c07_costs_nan_refuted : exists fc : list (list f32),
+  length fc = 1%nat /\ rect_mat 2 fc /\ Exists (Exists (fun d => is_nan d = true)) fc /\ costs_from_floats fc = None.
+Proof. exact costs_nan_refuted. Qed.
+(* [R] +inf (not a NaN, sign bit clear): maxVal = inf, the factor is 0.0, inf * 0.0 = NaN *)
+Theorem c07_costs_inf_refuted : exists fc : list (list f32),
+  length fc = 1%nat /\ rect_mat 2 fc /\ Forall (Forall (fun d => is_nan d = false /\ Bsign d = false)) fc /\
+  costs_from_floats fc = None.
+Proof. exact costs_inf_refuted. Qed.
+(* [R] a finite negative entry: alone it is scaled by INT_MAX / 1e-8 / 4 out of the range of int (undefined conversion);
+   next to a larger positive entry it becomes a negative int cost (outside cost_dom and the domain of C13) *)
+Theorem c07_costs_negative_refuted :
+  (exists fc : list (list f32), length fc = 1%nat /\ rect_mat 1 fc /\ Forall (Forall (fun d => is_finite d = true)) fc /\
+     costs_from_floats fc = None) /\
+  (exists (fc : list (list f32)) (c : list (list Z)), length fc = 1%nat /\ rect_mat 2 fc /\
+     Forall (Forall (fun d => is_finite d = true)) fc /\ costs_from_floats fc = Some c /\ get2 c 0 0 < 0).
+Proof. exact costs_negative_refuted. Qed.
+(* 0 sinks: conversionFactor_ = INT_MAX / 1e-8 / 4 / 0 = +inf (IEEE division: no trap), nothing is converted *)
+Example c07_costs_zero_sinks :
+  B2SF (conv_factor []) = B2SF (B754_infinity false : f64) /\ costs_from_floats [] = Some [].
+Proof. exact zero_sinks_factor_inf. Qed.
+
+(* ------------------------------------------------------------------ the producer: DensityLegalizer::reoptimize *)
+(* [F] every entry of the cost matrix built at density_legalizer.cpp:281-293 is finite and non-negative, for each of the six
+   LegalizationModel values: bin limits within [-2^22, 2^22] (the centres are then exact), finite targets of magnitude at
+   most 2^28, penalty factor (float)quadraticPenaltyFactor finite in [0, 1] (fin_nn q 0).  The matrix is rectangular. *)
+Theorem c07_reoptimize_costs_finite_nonneg :
+  forall (q : f32) (m : leg_model) (bins : list fbin) (cells : list (f32 * f32)),
+  fin_nn q 0 -> Forall bin_in_range bins -> Forall target_ok cells ->
+  fcosts_ok (reopt_costs q m bins cells) /\ rect_mat (length cells) (reopt_costs q m bins cells) /\
+  length (reopt_costs q m bins cells) = length bins.
+Proof. exact reopt_costs_ok. Qed.
+(* [F] the factor computed at place_global.cpp:83-87 is such a q: quadraticPenalty finite in [0, 1] (what
+   RoughLegalizationParameters::check accepts), 1 <= width + height <= 2^24 of the placement area *)
+Theorem c07_penalty_factor_in_unit : forall (m : leg_model) (p : f64) (wh : Z),
+  is_finite p = true -> (0 <= B2R p <= 1)%R -> 1 <= wh <= 2 ^ 24 -> fin_nn (penalty_factor_f m p wh) 0.
+Proof. exact penalty_factor_f_ok. Qed.
+(* [F] end to end for reoptimize with more than two bins (cpp:270-298): positive capacities (bins of capacity 0 are
+   skipped, cpp:246) and demands (cells of demand 0 are in no bin), totals at most 2^62 *)
+Theorem c07_reoptimize_transport_no_overflow :
+  forall (q : f32) (m : leg_model) (bins : list fbin) (cells : list (f32 * f32)) (cps dms : list Z),
+  fin_nn q 0 -> Forall bin_in_range bins -> Forall target_ok cells ->
+  length cps = length bins -> length dms = length cells ->
+  1 <= Z.of_nat (length bins) < 2 ^ 30 ->
+  Forall (fun c => 0 < c) cps -> Forall (fun d => 0 < d) dms ->
+  zsuml dms <= SUMB -> zsuml cps <= SUMB ->
+  exists pb, float_problem cps dms (reopt_costs q m bins cells) = Some pb /\ caps pb = cps /\ dems pb = dms /\
+             check_pb pb = true /\ cost_dom pb /\
+             Forall fits (increase_capacity_vals pb) /\
+             let pb' := increase_capacity pb in
+             Forall fits (ssp_run_vals tree_fuel pb') /\
+             exists x, ssp pb' = Ok x /\ pb_optimal pb' (plan_f x).
+Proof. exact reoptimize_transport_no_overflow. Qed.
+(* non-vacuity: 3 bins (one spanning the whole magnitude range), 2 cells (a target at -2^28, a denormal coordinate), the
+   largest accepted penalty; the hypotheses hold for every model *)
+Example c07_reoptimize_nonvacuous : forall m,
+  fin_nn (penalty_factor_f m (d_of_Z 1) 4096) 0 /\ Forall bin_in_range ex_bins /\ Forall target_ok ex_cells.
+Proof. exact ex_reopt_hyps. Qed.
+(* [R] a NaN target (outside C06's domain, which asks for finite placements): the L1 cost is NaN and costsFromIntegers
+   converts a NaN to int *)
+Theorem c07_reoptimize_nan_target_refuted : exists (bins : list fbin) (cells : list (f32 * f32)),
+  Forall bin_in_range bins /\ length bins = 2%nat /\ length cells = 2%nat /\
+  costs_from_floats (reopt_costs fzero L1 bins cells) = None.
+Proof. exact nan_target_refuted. Qed.
+
 Print Assumptions c07_rowleg_cost_bound.
 Print Assumptions c07_abacus_try_no_overflow.
 Print Assumptions c07_abacus_place_no_overflow.
@@ -412,3 +534,14 @@ Print Assumptions c07_ssp_relax_never_adds_sentinel.
 Print Assumptions c07_ssp_run_no_overflow.
 Print Assumptions c07_ssp_run_no_overflow_scaled.
 Print Assumptions c07_ssp_labels_within_one_cost.
+Print Assumptions c07_costs_round_is_nearest_away.
+Print Assumptions c07_costs_from_floats_defined.
+Print Assumptions c07_float_problem_cost_dom.
+Print Assumptions c07_float_transport_problem_no_overflow.
+Print Assumptions c07_costs_nan_refuted.
+Print Assumptions c07_costs_inf_refuted.
+Print Assumptions c07_costs_negative_refuted.
+Print Assumptions c07_reoptimize_costs_finite_nonneg.
+Print Assumptions c07_penalty_factor_in_unit.
+Print Assumptions c07_reoptimize_transport_no_overflow.
+Print Assumptions c07_reoptimize_nan_target_refuted.
